@@ -63,6 +63,7 @@ def run(prog, chk):
     chk.rule(reviewed_hash_loop_commutes, prog, chk)
     from props import C07
     chk.rule(C07.static_state, prog, chk)  # "repeating it in the same process": nothing a transform writes outlives it
+    chk.rule(C07.io_discipline, prog, chk)  # the bytes in the output file are a function of input and configuration - not of what the file held before
     chk.rule(C07.frontend_verdicts, prog, chk)  # "the output bytes, or the error": the front-ends add nothing of their own (e.g. a temp-file name) to an error
     # F17 (an empty body becomes HTTP 400) is a difference *between* front-ends (C07), not a source of non-determinism
     chk.obs = [o for o in chk.obs if not (o["rule"] == "A6.frontend-verdict" and o["status"] == "violated" and "server::" in o["key"] and o["key"].endswith(":from"))]
